@@ -1,46 +1,49 @@
 /*
  * C15 (bp part) tie: runs the REAL src/urcu-bp.c (included below by include path, unmodified) and
- * prints one line per operation / interposed library call.  Driver/BpArena.lean replays the same
- * lines on the Lean models `UrcuVerif.BpArena.step` (registry arena) and `BpArena.Sig.step`
- * (registration versus signals).
+ * prints one line per atomic section / interposed library call.  Driver/BpArena.lean replays the
+ * same lines on the Lean models `UrcuVerif.BpArena.step` (registry arena) and
+ * `BpArena.Sig.step` (registration versus signals).
  *
  * Interposed BEFORE the source is parsed (macros; nothing in /repo changes):
  *   mmap / munmap / mremap      own bump allocator inside one reserved region: the harness decides
  *                               from the seed whether mremap succeeds in place or returns MAP_FAILED;
  *                               honours MREMAP_MAYMOVE by really moving (and poisoning the old range)
  *   pthread_sigmask             records the mask window, checks the real mask
- *   pthread_mutex_lock/unlock   records init_lock / rcu_registry_lock / rcu_gp_lock ownership,
- *                               detects self-deadlock instead of hanging
- *   pthread_setspecific / pthread_key_create / pthread_key_delete / pthread_self
+ *   pthread_mutex_lock/unlock   init_lock / rcu_registry_lock / rcu_gp_lock ownership; the arena
+ *                               lines are printed at the end of each critical section, from what the
+ *                               section did; a self-deadlock is reported instead of hanging
+ *   pthread_setspecific / pthread_key_create (the destructor is wrapped) / pthread_key_delete /
+ *   pthread_self
  *
  * Modes
  *   sim <seed> <nops>   "threads" are simulated on the main thread: the TLS pointer
- *                       URCU_TLS(urcu_bp_reader) is context-switched and pthread_self() answers the
- *                       simulated id; the real urcu_bp_read_lock() / urcu_bp_thread_exit_notifier() /
+ *                       URCU_TLS(urcu_bp_reader) is context-switched, pthread_self() answers the
+ *                       simulated id, thread exit runs the key destructor the way pthread does
+ *                       (value reset to NULL, destructor, repeat while the value is non-NULL).  The
+ *                       real urcu_bp_read_lock() / urcu_bp_thread_exit_notifier() /
  *                       urcu_bp_before_fork()+urcu_bp_after_fork_child() / _urcu_bp_init() /
  *                       urcu_bp_exit() run.  Up to 140 threads.
- *   thr <seed> <nops>   the same operation generator on real pthreads (one runs at a time): real TLS,
- *                       real pthread key destructor at thread exit, real fork().
- *   dl <point>          directed: deliver a signal while urcu_bp_exit()/_urcu_bp_init() holds
- *                       init_lock with signals unblocked (finding: self-deadlock).
- *   xdl                 directed (used for the mutant "mask restored before unlock").
- * A signal handler that executes urcu_bp_read_lock()/urcu_bp_read_unlock() is raised at hook
+ *   thr <seed> <nops>   the same generator on real pthreads (one runs at a time): real TLS, real
+ *                       key destructor at thread exit, real fork().  Up to 70 threads.
+ *   dl <which>          directed: deliver a signal while urcu_bp_exit() (which=0, thread exit path)
+ *                       or _urcu_bp_init() (which=1) holds init_lock with signals open.
+ * A SIGUSR1 handler that executes urcu_bp_read_lock()/urcu_bp_read_unlock() is raised at hook
  * visits chosen from the seed (before/after every interposed call of an operation).
  *
- * Independent oracle (plain C, does not use the model), checked after every operation; any
- * violation prints `ORACLE <kind> ...` on stderr and exits 3:
- *   moved      a live thread's reader address changed            (slot_stable)
+ * Independent oracle (plain C, does not use the model), checked after every atomic section; a
+ * violation prints `ORACLE <kind>: ...` on stderr and exits 3 (deadlock: 4):
+ *   moved      a live thread's reader address changed / its chunk was unmapped  (slot_stable)
  *   shared     two live threads share a reader address           (slot_unique)
  *   used       chunk->used != number of alloc flags set          (used_counts_exact)
  *   registry   registry list != set of live readers / duplicate  (registry_matches_alloc)
  *   reuse      expansion although a free slot existed, or the slot returned is not the first free
  *   capacity   chunk capacities not INIT, then doubling; mapping length != capacity formula
- *   exit       reader still allocated / listed / TLS set after the exit notifier
+ *   exit       reader still allocated / listed / TLS set after the exit notifier or thread exit
  *   prune      foreign slot survives after_fork_child
  *   window     lock/add/mmap outside the blocked window, handler entered inside it, mask restored
  *              while the registry lock is held
  *   twice      add_thread ran for a thread that already has a reader
- *   deadlock   a thread waits for a mutex that one of its own interrupted frames holds (exit 4)
+ *   deadlock   a thread waits for a mutex that one of its own interrupted frames holds
  */
 #define _GNU_SOURCE
 #include <stdio.h>
@@ -135,15 +138,21 @@ static void oracle(const char *kind, const char *fmt, ...)
 	_exit(3);
 }
 
+/* per logical thread */
+static struct urcu_bp_reader *tlsp[MAXT];	/* its URCU_TLS(urcu_bp_reader): set/cleared at the end of the
+						   registry-lock section that added/removed it */
+static struct urcu_bp_reader *addr0[MAXT];	/* address recorded at registration (oracle) */
+static void *sim_keyval[MAXT];			/* sim: value of urcu_bp_key */
+static pthread_t ptid[MAXT];
+static int nlive(void) { int t, n = 0; for (t = 1; t < MAXT; t++) if (tlsp[t]) n++; return n; }
+
 /* ---- memory: bump allocator inside one reserved region ------------------------------------- */
-#define REGION (512UL << 20)
+#define REGION (1024UL << 20)
 static char *region, *bump;
 static char *last_base; static size_t last_size;	/* most recent allocation (the only growable one) */
 static int n_mmap, n_mremap_ok, n_mremap_fail, n_munmap, n_moved;
 static int grow_bias;			/* 0 always in place, 1 always MAP_FAILED, 2 random */
-static size_t last_mmap_len;
-#define MAXCH 64
-static struct { char *base; size_t len; int live; } maps[4096];
+static struct { char *base; size_t len; int live; } maps[8192];
 static int nmaps;
 
 static int really_blocked(void)
@@ -168,7 +177,7 @@ static void *h_mmap(void *a, size_t l, int p, int f, int fd, off_t o)
 	if (h_started && !really_blocked()) oracle("window", "mmap (expand_arena) with signals not blocked");
 	l = (l + 4095) & ~4095UL;
 	r = bump; bump += l + 4096;	/* guard gap */
-	if (bump > region + REGION) { fprintf(stderr, "harness region exhausted\n"); _exit(2); }
+	if (bump > region + REGION || nmaps >= 8192) { fprintf(stderr, "harness region exhausted\n"); _exit(2); }
 	last_base = r; last_size = l;
 	maps[nmaps].base = r; maps[nmaps].len = l; maps[nmaps].live = 1; nmaps++;
 	n_mmap++;
@@ -179,6 +188,7 @@ static int h_munmap(void *a, size_t l)
 {
 	int i;
 	if (!region || (char *)a < region || (char *)a >= region + REGION) return real_munmap(a, l);
+	if (nlive() > 0) oracle("moved", "chunk unmapped while %d threads are registered", nlive());
 	for (i = 0; i < nmaps; i++)
 		if (maps[i].base == (char *)a && maps[i].live) {
 			maps[i].live = 0;
@@ -221,31 +231,210 @@ static void *h_mremap(void *old, size_t oldsz, size_t newsz, int flags, ...)
 	return old;
 }
 
-/* ---- S events (signal model) --------------------------------------------------------------- */
+/* ---- state inspection ---------------------------------------------------------------------- */
+static int logical_of(pthread_t p)
+{
+	int t;
+	if (h_mode == SIM) return ((long)p >= 1000 && (long)p < 1000 + MAXT) ? (int)((long)p - 1000) : -1;
+	for (t = 0; t < MAXT; t++) if (ptid[t] && pthread_equal(ptid[t], p)) return t;
+	return -1;
+}
+
+/* slot id of a reader pointer by the harness' own walk of the chunk list */
+static int slot_of(struct urcu_bp_reader *r, int *k, int *i)
+{
+	struct registry_chunk *c;
+	int n = 0;
+	cds_list_for_each_entry(c, &registry_arena.chunk_list, node) {
+		if ((char *)r >= (char *)&c->readers[0] && (char *)r < (char *)&c->readers[c->capacity]) {
+			*k = n; *i = (int)(r - &c->readers[0]);
+			return 0;
+		}
+		n++;
+	}
+	return -1;
+}
+
+static void print_state(void)
+{
+	struct registry_chunk *c;
+	struct urcu_bp_reader *r;
+	size_t j;
+	int n = 0;
+	printf("st %d", urcu_bp_refcount);
+	cds_list_for_each_entry(c, &registry_arena.chunk_list, node) {
+		printf(" c=%zu:%zu:", c->capacity, c->used);
+		for (j = 0; j < c->capacity; j++) {
+			if (j) putchar(',');
+			if (!c->readers[j].alloc) { if (c->readers[j].tid) printf("!"); else printf("-"); }
+			else { int t = logical_of(c->readers[j].tid); if (t < 0) printf("?"); else printf("%d", t); }
+		}
+	}
+	cds_list_for_each_entry(r, &registry, node) {
+		int k, i;
+		if (++n > 100000) break;
+		if (slot_of(r, &k, &i)) printf(" r=?"); else printf(" r=%d.%d", k, i);
+	}
+	printf("\n");
+}
+
+static void check_all(const char *after)
+{
+	struct registry_chunk *c;
+	struct urcu_bp_reader *r;
+	int t, u, live = 0, nreg = 0, nch = 0;
+	size_t j, tot = 0;
+	cds_list_for_each_entry(c, &registry_arena.chunk_list, node) {
+		size_t pop = 0;
+		for (j = 0; j < c->capacity; j++) if (c->readers[j].alloc) pop++;
+		if (pop != c->used) oracle("used", "after %s: chunk %d used=%zu but %zu alloc flags set", after, nch, c->used, pop);
+		tot += c->used;
+		nch++;
+	}
+	for (t = 1; t < MAXT; t++) {
+		int k, i;
+		if (!tlsp[t]) continue;
+		live++;
+		if (tlsp[t] != addr0[t]) oracle("moved", "after %s: reader of live thread %d moved", after, t);
+		if (slot_of(tlsp[t], &k, &i)) oracle("moved", "after %s: reader of live thread %d is in no chunk", after, t);
+		if (!tlsp[t]->alloc) oracle("registry", "after %s: live thread %d has alloc=0", after, t);
+		if (logical_of(tlsp[t]->tid) != t) oracle("registry", "after %s: reader of thread %d carries the tid of %d", after, t, logical_of(tlsp[t]->tid));
+		for (u = 1; u < t; u++)
+			if (tlsp[u] == tlsp[t]) oracle("shared", "after %s: threads %d and %d share a reader", after, u, t);
+	}
+	cds_list_for_each_entry(r, &registry, node) {
+		int found = 0;
+		if (++nreg > 100000) oracle("registry", "after %s: registry list is cyclic", after);
+		for (t = 1; t < MAXT; t++) if (tlsp[t] == r) found++;
+		if (found != 1) oracle("registry", "after %s: a registry node is the reader of %d live threads", after, found);
+	}
+	if (nreg != live) oracle("registry", "after %s: %d registry nodes, %d live threads", after, nreg, live);
+	if ((int)tot != live) oracle("used", "after %s: sum of used=%zu, live threads=%d", after, tot, live);
+}
+
+/* first free slot by the oracle's own scan of the alloc flags; -1 if the arena is full */
+static int first_free(int *k, int *i)
+{
+	struct registry_chunk *c;
+	int n = 0;
+	size_t j;
+	cds_list_for_each_entry(c, &registry_arena.chunk_list, node) {
+		for (j = 0; j < c->capacity; j++)
+			if (!c->readers[j].alloc) { *k = n; *i = (int)j; return 0; }
+		n++;
+	}
+	return -1;
+}
+
+static int count_chunks(size_t *lastcap)
+{
+	struct registry_chunk *c; int n = 0;
+	*lastcap = 0;
+	cds_list_for_each_entry(c, &registry_arena.chunk_list, node) { n++; *lastcap = c->capacity; }
+	return n;
+}
+
+/* ---- what a critical section did ------------------------------------------------------------ */
+static int hist[16];
+enum { H_REG_NO, H_REG_FIRST, H_REG_INPLACE, H_REG_NEW, H_UNREG, H_USE, H_PRUNE, H_LIBINIT, H_LIBEXIT, H_LIBEXIT_FREE, H_REUSE, H_REREG };
+static int in_exit[MAXT];		/* the thread is inside its exit notifier */
+
+static struct {
+	struct urcu_bp_reader *tls0; int k0, i0;
+	int m0, ok0, f0, hadfree, fk, fi, nch0, added;
+	size_t lastcap0;
+} RS;
+static struct { int ref0, mu0; } IS;
+
+static void rs_begin(void)
+{
+	RS.tls0 = URCU_TLS(urcu_bp_reader);
+	RS.k0 = RS.i0 = -1;
+	if (RS.tls0) slot_of(RS.tls0, &RS.k0, &RS.i0);
+	RS.m0 = n_mmap; RS.ok0 = n_mremap_ok; RS.f0 = n_mremap_fail;
+	RS.hadfree = !first_free(&RS.fk, &RS.fi);
+	RS.nch0 = count_chunks(&RS.lastcap0);
+	RS.added = 0;
+}
+
+static void rs_end(void)
+{
+	int t = cur_tid(), k, i;
+	struct urcu_bp_reader *r = URCU_TLS(urcu_bp_reader);
+	if (RS.added) {
+		int dm = n_mmap - RS.m0, dok = n_mremap_ok - RS.ok0, df = n_mremap_fail - RS.f0, nch1;
+		size_t lastcap1;
+		const char *g;
+		if (!r) oracle("exit", "thread %d: add_thread left the TLS reader pointer NULL", t);
+		if (slot_of(r, &k, &i)) oracle("moved", "reader given to thread %d is in no chunk", t);
+		nch1 = count_chunks(&lastcap1);
+		if (dm == 0 && dok == 0 && df == 0) g = "no";
+		else if (dm == 1 && dok == 0 && df == 0 && RS.nch0 == 0) g = "first";
+		else if (dm == 0 && dok == 1 && df == 0) g = "inplace";
+		else if (dm == 1 && dok == 0 && df == 1) g = "new";
+		else g = "multi";
+		if (RS.hadfree) {
+			if (strcmp(g, "no")) oracle("reuse", "register %d: arena expanded (%s) although slot %d.%d was free", t, g, RS.fk, RS.fi);
+			if (k != RS.fk || i != RS.fi) oracle("reuse", "register %d: got slot %d.%d, the first free slot was %d.%d", t, k, i, RS.fk, RS.fi);
+			if (RS.nch0 && (RS.fk < RS.nch0 - 1 || (size_t)RS.fi * 2 < RS.lastcap0 || 1)) hist[H_REUSE]++;
+		} else if (!strcmp(g, "no")) oracle("reuse", "register %d: no free slot, no expansion, yet slot %d.%d returned", t, k, i);
+		if (!strcmp(g, "first")) {
+			if (lastcap1 != INIT_READER_COUNT || nch1 != 1) oracle("capacity", "first chunk has capacity %zu (chunks %d)", lastcap1, nch1);
+		} else if (!strcmp(g, "inplace")) {
+			if (lastcap1 != 2 * RS.lastcap0 || nch1 != RS.nch0) oracle("capacity", "in-place growth: capacity %zu -> %zu, chunks %d -> %d", RS.lastcap0, lastcap1, RS.nch0, nch1);
+		} else if (!strcmp(g, "new")) {
+			if (lastcap1 != 2 * RS.lastcap0 || nch1 != RS.nch0 + 1) oracle("capacity", "new chunk: last capacity %zu -> %zu, chunks %d -> %d", RS.lastcap0, lastcap1, RS.nch0, nch1);
+		} else if (!strcmp(g, "multi")) oracle("reuse", "register %d: more than one expansion in one allocation", t);
+		if (dm + dok && last_size != ((lastcap1 * sizeof(struct urcu_bp_reader) + sizeof(struct registry_chunk) + 4095) & ~4095UL))
+			oracle("capacity", "mapping length %zu does not match capacity %zu", last_size, lastcap1);
+		tlsp[t] = addr0[t] = r;
+		printf("reg %d %s %d %d\n", t, g, k, i);
+		hist[!strcmp(g, "no") ? H_REG_NO : !strcmp(g, "first") ? H_REG_FIRST : !strcmp(g, "inplace") ? H_REG_INPLACE : H_REG_NEW]++;
+		if (in_exit[t]) hist[H_REREG]++;
+		print_state();
+		check_all("register");
+	} else if (RS.tls0 && !r) {
+		struct urcu_bp_reader *q, *old = RS.tls0;
+		tlsp[t] = NULL;
+		if (old->alloc || old->tid || old->ctr) oracle("exit", "thread %d removed, its reader still has alloc=%d tid=%ld ctr=%lu", t, old->alloc, (long)old->tid, old->ctr);
+		cds_list_for_each_entry(q, &registry, node)
+			if (q == old) oracle("exit", "thread %d removed, its reader is still in the registry", t);
+		printf("unreg %d %d %d\n", t, RS.k0, RS.i0);
+		hist[H_UNREG]++;
+		print_state();
+		check_all("unregister");
+	}
+}
+
+static void is_begin(void) { IS.ref0 = urcu_bp_refcount; IS.mu0 = n_munmap; }
+static void is_end(void)
+{
+	int d = urcu_bp_refcount - IS.ref0;
+	if (d == 1) { printf("libinit\n"); hist[H_LIBINIT]++; }
+	else if (d == -1) { printf("libexit %d\n", n_munmap != IS.mu0); hist[n_munmap != IS.mu0 ? H_LIBEXIT_FREE : H_LIBEXIT]++; }
+	else if (d) oracle("exit", "urcu_bp_refcount changed by %d in one init_lock section", d);
+	else return;
+	print_state();
+	check_all("init_lock section");
+}
+
+/* ---- S events (signal model) and the interposed calls --------------------------------------- */
 static void sev(const char *ev)
 {
 	if (h_started && sig_trace) printf("S %d %s\n", cur_tid(), ev);
 }
 
-static const char *mname(pthread_mutex_t *m)
-{
-	if (m == &init_lock) return "I";
-	if (m == &rcu_registry_lock) return "R";
-	if (m == &rcu_gp_lock) return "G";
-	return NULL;
-}
-
 static pthread_t owner[3]; static int held[3];
 static int midx(pthread_mutex_t *m) { return m == &init_lock ? 0 : m == &rcu_registry_lock ? 1 : m == &rcu_gp_lock ? 2 : -1; }
+static const char *mnm[3] = { "I", "R", "G" };
+static int mine(int i) { return held[i] && pthread_equal(owner[i], real_self()); }
 
 static int h_sigmask(int how, const sigset_t *s, sigset_t *o)
 {
 	int r, full = 0;
 	if (!h_started) return real_sigmask(how, s, o);
-	if (how == SIG_BLOCK && s) {
-		sigset_t f; sigfillset(&f);
+	if (how == SIG_BLOCK && s)
 		full = sigismember(s, SIGUSR1) && sigismember(s, SIGUSR2) && sigismember(s, SIGTERM);
-	}
 	if (how == SIG_BLOCK && full) {
 		pt(0);
 		sev("MASK");
@@ -256,8 +445,7 @@ static int h_sigmask(int how, const sigset_t *s, sigset_t *o)
 	}
 	if (how == SIG_SETMASK) {
 		pt(0);
-		if (held[1] && pthread_equal(owner[1], real_self()) && !in_child && h_mode != -1)
-			oracle("window", "signal mask restored while this thread holds rcu_registry_lock");
+		if (mine(1)) oracle("window", "signal mask restored while this thread holds rcu_registry_lock");
 		sev("UNMASK");
 		win--;
 		r = real_sigmask(how, s, o);	/* a pending signal is delivered in here */
@@ -273,8 +461,8 @@ static int h_lock(pthread_mutex_t *m)
 	char b[16];
 	if (!h_started || i < 0) return real_lock(m);
 	pt(0);
-	if (held[i] && pthread_equal(owner[i], real_self())) {
-		snprintf(b, sizeof b, "DEADLOCK %s", mname(m));
+	if (mine(i)) {
+		snprintf(b, sizeof b, "DEADLOCK %s", mnm[i]);
 		sev(b);
 		fflush(stdout);
 		fprintf(stderr, "ORACLE deadlock: thread %d waits for %s which one of its own interrupted frames holds\n",
@@ -284,7 +472,9 @@ static int h_lock(pthread_mutex_t *m)
 	if (i == 1 && !really_blocked()) oracle("window", "rcu_registry_lock taken with signals not blocked");
 	r = real_lock(m);
 	held[i] = 1; owner[i] = real_self();
-	snprintf(b, sizeof b, "LOCK %s", mname(m));
+	if (i == 1) rs_begin();
+	if (i == 0) is_begin();
+	snprintf(b, sizeof b, "LOCK %s", mnm[i]);
 	sev(b);
 	pt(1);
 	return r;
@@ -297,7 +487,9 @@ static int h_unlock(pthread_mutex_t *m)
 	if (!h_started || i < 0) return real_unlock(m);
 	pt(0);
 	if (i == 1 && !really_blocked()) oracle("window", "rcu_registry_lock released with signals not blocked");
-	snprintf(b, sizeof b, "UNLOCK %s", mname(m));
+	if (i == 1) rs_end();
+	if (i == 0) is_end();
+	snprintf(b, sizeof b, "UNLOCK %s", mnm[i]);
 	sev(b);
 	held[i] = 0;
 	r = real_unlock(m);
@@ -305,38 +497,50 @@ static int h_unlock(pthread_mutex_t *m)
 	return r;
 }
 
-/* per logical thread */
-static struct urcu_bp_reader *tlsp[MAXT];	/* its URCU_TLS(urcu_bp_reader) as last seen */
-static struct urcu_bp_reader *addr0[MAXT];	/* address recorded at registration (oracle) */
-static int adds[MAXT];				/* add_thread runs since the last removal */
-static pthread_t ptid[MAXT];
-
 static int h_setspecific(pthread_key_t k, const void *v)
 {
 	int t = cur_tid();
 	if (!h_started) return real_setspecific(k, v);
 	pt(0);
 	if (!really_blocked()) oracle("window", "add_thread with signals not blocked");
-	if (!(held[1] && pthread_equal(owner[1], real_self()))) oracle("window", "add_thread without rcu_registry_lock");
-	if (URCU_TLS(urcu_bp_reader) != NULL || adds[t] != 0)
+	if (!mine(1)) oracle("window", "add_thread without rcu_registry_lock");
+	if (URCU_TLS(urcu_bp_reader) != NULL || tlsp[t] != NULL)
 		oracle("twice", "add_thread runs for thread %d which already has a reader", t);
-	adds[t]++;
+	if (RS.added) oracle("twice", "add_thread ran twice in one critical section (thread %d)", t);
+	RS.added = 1;
 	sev("ADD");
 	pt(1);
 	if (h_mode == THR) return real_setspecific(k, v);
+	sim_keyval[t] = (void *)v;
 	return 0;
+}
+
+/* the key destructor is wrapped so that every invocation is visible */
+static void (*real_destructor)(void *);
+static void h_destructor(void *v)
+{
+	int t = cur_tid();
+	struct urcu_bp_reader *r = v;
+	if (!tlsp[t] || tlsp[t] != r) oracle("exit", "key destructor of thread %d called with a pointer that is not its reader", t);
+	in_exit[t] = 1;
+	printf("S %d CALL_EXIT\n", t);
+	real_destructor(v);
+	printf("S %d RET\n", t);
+	in_exit[t] = 0;
+	if (URCU_TLS(urcu_bp_reader) != tlsp[t]) oracle("exit", "thread %d: TLS reader pointer and registration state disagree after the exit notifier", t);
 }
 
 static int key_live;
 static int h_key_create(pthread_key_t *k, void (*d)(void *))
 {
-	if (h_started) { if (key_live) oracle("exit", "pthread_key_create while the key exists"); }
+	if (h_started && key_live) oracle("exit", "pthread_key_create while the key exists");
 	key_live = 1;
-	return real_key_create(k, d);
+	real_destructor = d;
+	return real_key_create(k, h_destructor);
 }
 static int h_key_delete(pthread_key_t k)
 {
-	if (h_started) { if (!key_live) oracle("exit", "pthread_key_delete without key"); }
+	if (h_started && !key_live) oracle("exit", "pthread_key_delete without key");
 	key_live = 0;
 	return real_key_delete(k);
 }
@@ -386,7 +590,7 @@ static void pt(int post)
 	visit++;
 	/* init_lock held by this thread while signals are open: delivering here deadlocks the real
 	 * code (finding); excluded from the random plans, exercised by the directed mode `dl`. */
-	danger = held[0] && pthread_equal(owner[0], real_self()) && !really_blocked();
+	danger = mine(0) && !really_blocked();
 	if (dl_point >= 0) {
 		if (danger && dl_point-- == 0) do_raise(post);
 		return;
@@ -400,130 +604,18 @@ static void pt(int post)
 		}
 }
 
-static void plan_signals(void)
+static void plan_signals(int span)
 {
 	unsigned r = rnd() % 100;
 	int i;
 	visit = 0; nfire = 0;
-	if (r < 55) return;
-	nfire = r < 85 ? 1 : r < 95 ? 2 : 3;
-	for (i = 0; i < nfire; i++) fire_at[i] = 1 + rnd() % 22;
-}
-
-/* ---- state inspection ---------------------------------------------------------------------- */
-static int logical_of(pthread_t p)
-{
-	int t;
-	if (h_mode == SIM) return ((long)p >= 1000 && (long)p < 1000 + MAXT) ? (int)((long)p - 1000) : -1;
-	for (t = 0; t < MAXT; t++) if (ptid[t] && pthread_equal(ptid[t], p)) return t;
-	return -1;
-}
-
-/* slot id of a reader pointer by the harness' own walk of the chunk list */
-static int slot_of(struct urcu_bp_reader *r, int *k, int *i)
-{
-	struct registry_chunk *c;
-	int n = 0;
-	cds_list_for_each_entry(c, &registry_arena.chunk_list, node) {
-		if ((char *)r >= (char *)&c->readers[0] && (char *)r < (char *)&c->readers[c->capacity]) {
-			*k = n; *i = (int)(r - &c->readers[0]);
-			return 0;
-		}
-		n++;
-	}
-	return -1;
-}
-
-static void print_state(void)
-{
-	struct registry_chunk *c;
-	struct urcu_bp_reader *r;
-	size_t j;
-	printf("st %d", urcu_bp_refcount);
-	cds_list_for_each_entry(c, &registry_arena.chunk_list, node) {
-		printf(" c=%zu:%zu:", c->capacity, c->used);
-		for (j = 0; j < c->capacity; j++) {
-			if (j) putchar(',');
-			if (!c->readers[j].alloc) { if (c->readers[j].tid) printf("!"); else printf("-"); }
-			else { int t = logical_of(c->readers[j].tid); if (t < 0) printf("?"); else printf("%d", t); }
-		}
-	}
-	cds_list_for_each_entry(r, &registry, node) {
-		int k, i;
-		if (slot_of(r, &k, &i)) printf(" r=?"); else printf(" r=%d.%d", k, i);
-	}
-	printf("\n");
-}
-
-/* oracle's own bookkeeping of chunks, from the mmap/mremap hooks only */
-static int exp_nch; static size_t exp_lastcap;
-
-static void check_all(const char *after)
-{
-	struct registry_chunk *c;
-	struct urcu_bp_reader *r;
-	int t, u, nlive = 0, nreg = 0, nch = 0;
-	size_t j;
-	/* chunks */
-	cds_list_for_each_entry(c, &registry_arena.chunk_list, node) {
-		size_t pop = 0;
-		for (j = 0; j < c->capacity; j++) if (c->readers[j].alloc) pop++;
-		if (pop != c->used) oracle("used", "after %s: chunk %d used=%zu but %zu alloc flags set", after, nch, c->used, pop);
-		nch++;
-	}
-	/* live threads */
-	for (t = 1; t < MAXT; t++) {
-		if (!tlsp[t]) continue;
-		nlive++;
-		if (tlsp[t] != addr0[t]) oracle("moved", "after %s: reader of live thread %d moved", after, t);
-		if (!tlsp[t]->alloc) oracle("registry", "after %s: live thread %d has alloc=0", after, t);
-		if (logical_of(tlsp[t]->tid) != t) oracle("registry", "after %s: reader of thread %d carries tid of %d", after, t, logical_of(tlsp[t]->tid));
-		for (u = 1; u < t; u++)
-			if (tlsp[u] == tlsp[t]) oracle("shared", "after %s: threads %d and %d share a reader", after, u, t);
-		{ int k, i; if (slot_of(tlsp[t], &k, &i)) oracle("moved", "after %s: reader of live thread %d is in no chunk", after, t); }
-	}
-	/* registry = live readers, no duplicates */
-	cds_list_for_each_entry(r, &registry, node) {
-		int found = 0;
-		struct urcu_bp_reader *q;
-		nreg++;
-		if (nreg > 100000) oracle("registry", "after %s: registry list is cyclic", after);
-		for (t = 1; t < MAXT; t++) if (tlsp[t] == r) found++;
-		if (found != 1) oracle("registry", "after %s: registry node is the reader of %d live threads", after, found);
-		cds_list_for_each_entry(q, &registry, node) { if (q == r) break; }
-	}
-	if (nreg != nlive) oracle("registry", "after %s: %d registry nodes, %d live threads", after, nreg, nlive);
-	{
-		size_t tot = 0;
-		cds_list_for_each_entry(c, &registry_arena.chunk_list, node) tot += c->used;
-		if ((int)tot != nlive) oracle("used", "after %s: sum of used=%zu, live threads=%d", after, tot, nlive);
-	}
-}
-
-/* first free slot by the oracle's own scan of the alloc flags; -1 if the arena is full */
-static int first_free(int *k, int *i)
-{
-	struct registry_chunk *c;
-	int n = 0;
-	size_t j;
-	cds_list_for_each_entry(c, &registry_arena.chunk_list, node) {
-		for (j = 0; j < c->capacity; j++)
-			if (!c->readers[j].alloc) { *k = n; *i = (int)j; return 0; }
-		n++;
-	}
-	return -1;
-}
-
-static int count_chunks(size_t *lastcap)
-{
-	struct registry_chunk *c; int n = 0;
-	*lastcap = 0;
-	cds_list_for_each_entry(c, &registry_arena.chunk_list, node) { n++; *lastcap = c->capacity; }
-	return n;
+	if (r < 50) return;
+	nfire = r < 82 ? 1 : r < 94 ? 2 : 3;
+	for (i = 0; i < nfire; i++) fire_at[i] = 1 + rnd() % span;
 }
 
 /* ---- running code "as thread t" ------------------------------------------------------------ */
-struct worker { pthread_t th; sem_t go, done; int cmd; int started; struct urcu_bp_reader *reader; int childrc; };
+struct worker { pthread_t th; sem_t go, done; int cmd; int started; };
 static struct worker W[MAXT];
 enum { CMD_RL, CMD_EXIT, CMD_FORK };
 static void child_report(int t);
@@ -544,7 +636,23 @@ static void do_fork_as(int t)
 	}
 	urcu_bp_after_fork_parent();
 	waitpid(p, &st, 0);
-	if (!WIFEXITED(st) || WEXITSTATUS(st)) { fflush(stdout); fprintf(stderr, "ORACLE prune: child failed (status %d)\n", st); _exit(WIFEXITED(st) ? WEXITSTATUS(st) : 2); }
+	if (!WIFEXITED(st) || WEXITSTATUS(st)) {
+		fflush(stdout);
+		fprintf(stderr, "ORACLE prune: forked child failed (status %d)\n", st);
+		_exit(WIFEXITED(st) ? WEXITSTATUS(st) : 2);
+	}
+}
+
+static void rl_body(int t)
+{
+	struct urcu_bp_reader *r;
+	printf("S %d CALL_RL\n", t);
+	urcu_bp_read_lock();
+	r = URCU_TLS(urcu_bp_reader);
+	if (!r || !(r->ctr & URCU_BP_GP_CTR_NEST_MASK)) oracle("exit", "thread %d: read_lock did not enter a section on a reader", t);
+	urcu_bp_read_unlock();
+	printf("S %d RET\n", t);
+	if (URCU_TLS(urcu_bp_reader) != tlsp[t]) oracle("exit", "thread %d: TLS reader pointer and registration state disagree after read_lock", t);
 }
 
 static void *worker_main(void *arg)
@@ -553,18 +661,9 @@ static void *worker_main(void *arg)
 	thr_tid = t;
 	for (;;) {
 		sem_wait(&W[t].go);
-		if (W[t].cmd == CMD_RL) {
-			printf("S %d CALL_RL\n", t);
-			urcu_bp_read_lock();
-			urcu_bp_read_unlock();
-			printf("S %d RET\n", t);
-			W[t].reader = URCU_TLS(urcu_bp_reader);
-		} else if (W[t].cmd == CMD_FORK) {
-			do_fork_as(t);
-		} else {
-			printf("S %d CALL_EXIT\n", t);
-			return NULL;	/* pthread runs the key destructor: urcu_bp_thread_exit_notifier */
-		}
+		if (W[t].cmd == CMD_RL) rl_body(t);
+		else if (W[t].cmd == CMD_FORK) do_fork_as(t);
+		else return NULL;	/* pthread runs the key destructor: urcu_bp_thread_exit_notifier */
 		sem_post(&W[t].done);
 	}
 }
@@ -583,150 +682,80 @@ static void as_read_lock(int t)
 	if (h_mode == SIM) {
 		sim_cur = t;
 		URCU_TLS(urcu_bp_reader) = tlsp[t];
-		printf("S %d CALL_RL\n", t);
-		urcu_bp_read_lock();
-		urcu_bp_read_unlock();
-		printf("S %d RET\n", t);
-		tlsp[t] = URCU_TLS(urcu_bp_reader);
+		rl_body(t);
 		URCU_TLS(urcu_bp_reader) = NULL;
 		sim_cur = 0;
 	} else {
 		ensure_worker(t);
 		W[t].cmd = CMD_RL; sem_post(&W[t].go); sem_wait(&W[t].done);
-		tlsp[t] = W[t].reader;
 	}
 }
 
 static void as_exit(int t)
 {
 	if (h_mode == SIM) {
+		int it = 0;
 		sim_cur = t;
 		URCU_TLS(urcu_bp_reader) = tlsp[t];
-		printf("S %d CALL_EXIT\n", t);
-		urcu_bp_thread_exit_notifier(tlsp[t]);
-		printf("S %d RET\n", t);
-		tlsp[t] = URCU_TLS(urcu_bp_reader);
+		/* what pthread does with a key at thread exit */
+		while (sim_keyval[t] && it++ < 4) {
+			void *v = sim_keyval[t];
+			sim_keyval[t] = NULL;
+			h_destructor(v);
+		}
 		URCU_TLS(urcu_bp_reader) = NULL;
 		sim_cur = 0;
 	} else {
 		W[t].cmd = CMD_EXIT; sem_post(&W[t].go);
 		pthread_join(W[t].th, NULL);
-		thr_tid = t; printf("S %d RET\n", t); thr_tid = 0;
 		W[t].started = 0; ptid[t] = 0;
 		sem_destroy(&W[t].go); sem_destroy(&W[t].done);
-		/* the thread is gone: whether its reader was released is what the oracle checks */
-		tlsp[t] = NULL;
 	}
+	if (tlsp[t]) oracle("exit", "thread %d has exited but is still registered", t);
 }
 
 /* ---- operations ----------------------------------------------------------------------------- */
-static int hist[16];
-enum { H_REG_NO, H_REG_FIRST, H_REG_INPLACE, H_REG_NEW, H_UNREG, H_UNREG_FREE, H_USE, H_PRUNE, H_LIBINIT, H_LIBEXIT, H_LIBEXIT_FREE, H_REUSE };
-
 static void op_register(int t)
 {
-	int m0 = n_mmap, ok0 = n_mremap_ok, f0 = n_mremap_fail, fk, fi, hadfree, k, i, nch0;
-	size_t lastcap0, lastcap1;
-	const char *g;
-	hadfree = !first_free(&fk, &fi);
-	nch0 = count_chunks(&lastcap0);
-	adds[t] = 0;
-	sig_enabled = 1; plan_signals();
+	sig_enabled = 1; plan_signals(16);
 	as_read_lock(t);
 	sig_enabled = 0;
 	if (!tlsp[t]) oracle("exit", "thread %d has no reader after its first read-side call", t);
-	addr0[t] = tlsp[t];
-	if (slot_of(tlsp[t], &k, &i)) oracle("moved", "reader of thread %d is in no chunk", t);
-	{
-		int dm = n_mmap - m0, dok = n_mremap_ok - ok0, df = n_mremap_fail - f0;
-		int nch1 = count_chunks(&lastcap1);
-		if (dm == 0 && dok == 0 && df == 0) g = "no";
-		else if (dm == 1 && dok == 0 && df == 0 && nch0 == 0) g = "first";
-		else if (dm == 0 && dok == 1 && df == 0) g = "inplace";
-		else if (dm == 1 && dok == 0 && df == 1) g = "new";
-		else g = "multi";
-		if (hadfree) {
-			if (strcmp(g, "no")) oracle("reuse", "register %d: arena expanded (%s) although slot %d.%d was free", t, g, fk, fi);
-			if (k != fk || i != fi) oracle("reuse", "register %d: got slot %d.%d, first free slot was %d.%d", t, k, i, fk, fi);
-			hist[H_REUSE]++;
-		} else if (!strcmp(g, "no")) oracle("reuse", "register %d: no free slot, no expansion, yet slot %d.%d returned", t, k, i);
-		if (!strcmp(g, "first")) {
-			if (lastcap1 != INIT_READER_COUNT || nch1 != 1) oracle("capacity", "first chunk has capacity %zu (chunks %d)", lastcap1, nch1);
-		} else if (!strcmp(g, "inplace")) {
-			if (lastcap1 != 2 * lastcap0 || nch1 != nch0) oracle("capacity", "in-place growth: capacity %zu -> %zu, chunks %d -> %d", lastcap0, lastcap1, nch0, nch1);
-		} else if (!strcmp(g, "new")) {
-			if (lastcap1 != 2 * lastcap0 || nch1 != nch0 + 1) oracle("capacity", "new chunk: last capacity %zu -> %zu, chunks %d -> %d", lastcap0, lastcap1, nch0, nch1);
-		}
-		if (dm == 1 && last_size != ((lastcap1 * sizeof(struct urcu_bp_reader) + sizeof(struct registry_chunk) + 4095) & ~4095UL))
-			oracle("capacity", "mapping length %zu does not match capacity %zu", last_size, lastcap1);
-	}
-	printf("reg %d %s %d %d\n", t, g, k, i);
-	hist[!strcmp(g, "no") ? H_REG_NO : !strcmp(g, "first") ? H_REG_FIRST : !strcmp(g, "inplace") ? H_REG_INPLACE : H_REG_NEW]++;
-	print_state();
-	check_all("register");
 }
 
 static void op_use(int t)
 {
 	int k, i;
 	struct urcu_bp_reader *before = tlsp[t];
-	sig_enabled = 1; plan_signals();
+	sig_enabled = 1; plan_signals(4);
 	as_read_lock(t);
 	sig_enabled = 0;
 	if (tlsp[t] != before) oracle("moved", "thread %d: reader pointer changed by a read-side call", t);
 	if (slot_of(tlsp[t], &k, &i)) oracle("moved", "reader of thread %d is in no chunk", t);
 	printf("use %d %d %d\n", t, k, i);
 	hist[H_USE]++;
-	print_state();
-	check_all("use");
 }
 
 static void op_unregister(int t)
 {
-	int k, i, mu0 = n_munmap;
-	struct urcu_bp_reader *r = tlsp[t];
-	struct urcu_bp_reader *q;
-	int nch;
-	size_t lc;
-	if (slot_of(r, &k, &i)) oracle("moved", "reader of thread %d is in no chunk", t);
-	sig_enabled = 1; plan_signals();
+	sig_enabled = 1; plan_signals(16);
 	as_exit(t);
 	sig_enabled = 0;
-	nch = count_chunks(&lc);
-	if (tlsp[t] && adds[t] < 2) oracle("exit", "thread %d: TLS reader pointer still set after exit", t);
-	if (tlsp[t]) {
-		/* a handler that ran after the removal registered the thread again: it is live */
-		addr0[t] = tlsp[t];
-		if (h_mode == THR) tlsp[t] = NULL;
-	}
-	if (n_munmap == mu0 && nch > 0 && !tlsp[t]) {
-		if (r->alloc || r->tid || r->ctr) oracle("exit", "thread %d exited, its reader still has alloc=%d tid=%ld ctr=%lu", t, r->alloc, (long)r->tid, r->ctr);
-		cds_list_for_each_entry(q, &registry, node)
-			if (q == r) oracle("exit", "thread %d exited, its reader is still in the registry", t);
-	}
-	printf("unreg %d %d %d %d\n", t, k, i, n_munmap != mu0);
-	if (tlsp[t]) {
-		int k2, i2;
-		if (slot_of(tlsp[t], &k2, &i2)) oracle("moved", "reader of thread %d is in no chunk", t);
-		printf("rereg %d %d %d\n", t, k2, i2);
-	}
-	adds[t] = tlsp[t] ? 1 : 0;
-	hist[n_munmap != mu0 ? H_UNREG_FREE : H_UNREG]++;
-	print_state();
-	check_all("unregister");
 }
 
 static void child_report(int t)
 {
 	struct registry_chunk *c;
-	int u, n = 0;
+	int u, n = 0, k = 0;
 	size_t j;
 	/* oracle: only the forking thread's slot survives */
-	cds_list_for_each_entry(c, &registry_arena.chunk_list, node)
+	cds_list_for_each_entry(c, &registry_arena.chunk_list, node) {
 		for (j = 0; j < c->capacity; j++)
 			if (c->readers[j].alloc && &c->readers[j] != tlsp[t])
-				oracle("prune", "after_fork_child by thread %d: foreign slot %d.%zu survives", t, n, j);
-	for (u = 1; u < MAXT; u++) if (u != t) { if (tlsp[u]) n++; tlsp[u] = NULL; }
+				oracle("prune", "after_fork_child by thread %d: foreign slot %d.%zu survives", t, k, j);
+		k++;
+	}
+	for (u = 1; u < MAXT; u++) if (u != t) { if (tlsp[u]) n++; tlsp[u] = NULL; sim_keyval[u] = NULL; }
 	printf("prune %d %d\n", t, n);
 	print_state();
 	check_all("prune");
@@ -734,6 +763,8 @@ static void child_report(int t)
 
 static void op_prune(int t)
 {
+	int tr = sig_trace;
+	sig_trace = 0;
 	if (h_mode == SIM) {
 		sim_cur = t;
 		URCU_TLS(urcu_bp_reader) = tlsp[t];
@@ -748,37 +779,25 @@ static void op_prune(int t)
 		else { ensure_worker(t); W[t].cmd = CMD_FORK; sem_post(&W[t].go); sem_wait(&W[t].done); }
 		printf("endfork\n");
 	}
+	sig_trace = tr;
 	hist[H_PRUNE]++;
 }
 
-static void op_libexit(void)
+static void op_lib(int init)
 {
-	int mu0 = n_munmap;
-	urcu_bp_exit();
-	printf("libexit %d\n", n_munmap != mu0);
-	hist[n_munmap != mu0 ? H_LIBEXIT_FREE : H_LIBEXIT]++;
-	print_state();
-	check_all("libexit");
+	int tr = sig_trace;
+	sig_trace = 0;
+	if (init) _urcu_bp_init(); else urcu_bp_exit();
+	sig_trace = tr;
 }
-
-static void op_libinit(void)
-{
-	_urcu_bp_init();
-	printf("libinit\n");
-	hist[H_LIBINIT]++;
-	print_state();
-	check_all("libinit");
-}
-
-static int nlive(void) { int t, n = 0; for (t = 1; t < MAXT; t++) if (tlsp[t]) n++; return n; }
 
 static int pick(int want_live)
 {
-	int t, n = 0, c;
-	for (t = 1; t < MAXT; t++) if (!!tlsp[t] == want_live) n++;
+	int t, n = 0, c, lim = h_mode == THR ? 71 : MAXT;
+	for (t = 1; t < lim; t++) if (!!tlsp[t] == want_live) n++;
 	if (!n) return 0;
 	c = rnd() % n;
-	for (t = 1; t < MAXT; t++) if (!!tlsp[t] == want_live && c-- == 0) return t;
+	for (t = 1; t < lim; t++) if (!!tlsp[t] == want_live && c-- == 0) return t;
 	return 0;
 }
 
@@ -800,41 +819,50 @@ static int run_random(unsigned long seed, int nops)
 	for (n = 0; n < 5; n++) rnd();
 	grow_bias = rnd() % 4; if (grow_bias == 3) grow_bias = 2;
 	target = targets[rnd() % 13];
-	if (h_mode == THR && target > 70) target = 70;
-	printf("# seed %lu mode %s grow_bias %d init %d\n", seed, h_mode == SIM ? "sim" : "thr", grow_bias, INIT_READER_COUNT);
+	printf("# seed %lu mode %s grow_bias %d INIT_READER_COUNT %d\n", seed, h_mode == SIM ? "sim" : "thr", grow_bias, INIT_READER_COUNT);
 	printf("init %d\n", urcu_bp_refcount);
 	print_state();
 	for (n = 0; n < nops; n++) {
 		unsigned r = rnd() % 100;
 		int live = nlive();
-		if (rnd() % 40 == 0) { target = targets[rnd() % 13]; if (h_mode == THR && target > 70) target = 70; }
-		if (r < 4) {
-			/* fork child: sim prunes in place (continues as the child), thr forks for real */
+		if (rnd() % 30 == 0) {
+			/* new episode: population target (0 = drain completely so that the chunks get unmapped) and growth mode */
+			target = (rnd() % 3 == 0) ? 0 : targets[rnd() % 13];
+			grow_bias = rnd() % 4; if (grow_bias == 3) grow_bias = 2;
+			printf("# episode target %d grow_bias %d\n", target, grow_bias);
+		}
+		if (live == 0 && target == 0) {
+			if (extra_ref > 0) { op_lib(0); extra_ref--; }	/* last reference: every chunk is unmapped */
+			else if (rnd() & 1) { op_lib(1); extra_ref++; }
+			target = targets[1 + rnd() % 12];
+			continue;
+		}
+		if (r < 3) {
+			/* fork child: sim prunes in place (the run continues as the child), thr forks for real */
+			if (h_mode == SIM && live > 20 && rnd() % 4) continue;	/* keep populations large most of the time */
 			t = (rnd() % 4) ? pick(1) : pick(0);
-			if (h_mode == SIM && live > 20 && rnd() % 3) continue;	/* keep populations large most of the time */
+			if (h_mode == THR && (rnd() % 5) == 0) t = 0;
 			op_prune(t);
-		} else if (r < 7) {
-			if (extra_ref > 0) { op_libexit(); extra_ref--; } else { op_libinit(); extra_ref++; }
-		} else if (r < 20 && live) {
+		} else if (r < 5) {
+			if (extra_ref > 0) { op_lib(0); extra_ref--; } else { op_lib(1); extra_ref++; }
+		} else if (r < 15 && live) {
 			op_use(pick(1));
 		} else {
-			int up = live < target ? 80 : live > target ? 20 : 50;
+			int up = live < target ? 85 : live > target ? 12 : 50;
 			if ((int)(rnd() % 100) < up) { t = pick(0); if (t) op_register(t); }
 			else { t = pick(1); if (t) op_unregister(t); }
 		}
 	}
-	/* drain */
 	while ((t = pick(1))) op_unregister(t);
-	if (extra_ref > 0) op_libexit();
-	printf("# ops reg_no=%d reg_first=%d reg_inplace=%d reg_new=%d unreg=%d unreg_free=%d use=%d prune=%d libinit=%d libexit=%d libexit_free=%d reuse=%d raised=%d entered=%d skipped_dl=%d\n",
-	       hist[H_REG_NO], hist[H_REG_FIRST], hist[H_REG_INPLACE], hist[H_REG_NEW], hist[H_UNREG], hist[H_UNREG_FREE], hist[H_USE],
-	       hist[H_PRUNE], hist[H_LIBINIT], hist[H_LIBEXIT], hist[H_LIBEXIT_FREE], hist[H_REUSE], n_raised, n_entered, n_skipped_dl);
+	if (extra_ref > 0) op_lib(0);
+	printf("# ops reg_no=%d reg_first=%d reg_inplace=%d reg_new=%d unreg=%d use=%d prune=%d libinit=%d libexit=%d libexit_free=%d reuse=%d rereg_in_exit=%d raised=%d entered=%d skipped_dl=%d\n",
+	       hist[H_REG_NO], hist[H_REG_FIRST], hist[H_REG_INPLACE], hist[H_REG_NEW], hist[H_UNREG], hist[H_USE],
+	       hist[H_PRUNE], hist[H_LIBINIT], hist[H_LIBEXIT], hist[H_LIBEXIT_FREE], hist[H_REUSE], hist[H_REREG], n_raised, n_entered, n_skipped_dl);
 	return 0;
 }
 
-/* directed: a signal while init_lock is held with signals open.  which = 0: in urcu_bp_exit() of
- * the thread-exit path (after the mask has been restored); which = 1: in _urcu_bp_init() called
- * from the constructor path (libinit). */
+/* directed: a signal while init_lock is held with signals open.  which = 0: in urcu_bp_exit() on
+ * the thread-exit path (after the mask has been restored); which = 1: in _urcu_bp_init(). */
 static int run_dl(int which)
 {
 	printf("# directed: signal while init_lock is held with signals open (%s)\n", which ? "_urcu_bp_init" : "urcu_bp_exit");
@@ -842,18 +870,15 @@ static int run_dl(int which)
 	print_state();
 	if (which == 0) {
 		op_register(1);
-		sig_enabled = 1; dl_point = 0; visit = 0;
-		adds[1] = 1;
+		sig_enabled = 1; dl_point = 0; visit = 0; nfire = 0;
 		as_exit(1);
 		sig_enabled = 0;
-		printf("unreg 1 0 0 0\n");
 	} else {
 		sim_cur = 1;
-		printf("S 1 CALL_INIT\n");
-		sig_enabled = 1; dl_point = 0; visit = 0;
+		sig_trace = 0;
+		sig_enabled = 1; dl_point = 0; visit = 0; nfire = 0;
 		_urcu_bp_init();
 		sig_enabled = 0;
-		printf("S 1 RET\n");
 	}
 	printf("# no deadlock\n");
 	return 0;
